@@ -443,17 +443,14 @@ func (p *proxyConn) writeResponse(res *http.Response) error {
 		}()
 	}
 
-	if p.closing() {
+	switch {
+	case req.Method == http.MethodConnect && res.StatusCode/100 == 2, res.StatusCode == http.StatusSwitchingProtocols:
+		// The response sets up a tunnel: from here on the connection lives as long as the tunnel does,
+		// whatever the request said about persistence (CONNECT over HTTP/1.0, "Connection: Upgrade, close")
+		// and also while the proxy is shutting down - the exchange has reached its target.
+		res.Close = false
+	case p.closing(), req.Close:
 		res.Close = true
-	} else {
-		if req.Close {
-			res.Close = true
-		}
-		// Support CONNECT over HTTP/1.0.
-		// If connect is successful, the connection should not be closed.
-		if req.Method == http.MethodConnect && res.StatusCode/100 == 2 {
-			res.Close = false
-		}
 	}
 
 	// A body decompressed by the transport has lost its Content-Length, and net/http does not
